@@ -60,7 +60,7 @@ ASSUMPTIONS = [
     "values stored in the dictionaries are small ints, null, strings and int lists so that value comparison is exact",
 ]
 PLAN = {
-    "quick": {"histories": 3000, "steps": 30, "rand_batches": 2, "batch_terms": 36},
+    "quick": {"histories": 9000, "steps": 30, "rand_batches": 4, "batch_terms": 36},
     "thorough": {"histories": 100000, "steps": 30, "rand_batches": 20, "batch_terms": 40},
 }
 
